@@ -8,6 +8,7 @@ import SamVerif.Drive.C12
 import SamVerif.Drive.C10
 import SamVerif.Drive.C18
 import SamVerif.Drive.C17
+import SamVerif.Drive.C19
 open SamVerif.Drive
 
 def dispatch (line : String) : String :=
@@ -18,6 +19,7 @@ def dispatch (line : String) : String :=
     if k.startsWith "c10." then C10.handle k args impl
     else if k.startsWith "c18." then C18.handle k args impl
     else if k.startsWith "c17." then C17.handle k args impl
+    else if k.startsWith "c19." then C19.handle k args impl
     else "bad-op"
   | _ => "bad-op"
 
